@@ -10,7 +10,8 @@ from collections import Counter
 
 PKG = "network/dag"
 HARNESS = ["network/dag/zz_verif_c14_test.go"]
-HARNESSES = [(PKG, HARNESS, "c14"), ("network/transport/v2", ["network/transport/v2/zz_verif_c14_test.go"], "c14h")]
+HARNESSES = [(PKG, HARNESS, "c14"), ("network/transport/v2", ["network/transport/v2/zz_verif_c14_test.go"], "c14h"),
+             ("network", ["network/zz_verif_c14_test.go"], "c14s")]
 ROOT = os.path.dirname(os.path.dirname(os.path.abspath(__file__)))
 
 REQUIRED = ["no_loss", "admitted_by_commit", "only_admitted_delivered", "not_admitted_unchanged", "no_call_after_done",
@@ -19,7 +20,7 @@ REQUIRED = ["no_loss", "admitted_by_commit", "only_admitted_delivered", "not_adm
             "restart_redelivers", "delivered_at_least_once", "eventual_delivery", "eventual_delivery_from_start", "failed_visible",
             "completed_or_visible", "parked_witness",
             "fact_retry_constants", "fact_retry_arithmetic", "fact_retry_backoff", "fact_notifyNow_retries",
-            "fact_run_replays_every_job", "fact_save_only_new_events", "fact_failed_events_threshold", "fact_save_in_write_tx_notify_after_commit",
+            "fact_run_replays_every_job", "fact_start_runs_every_notifier", "fact_save_only_new_events", "fact_failed_events_threshold", "fact_save_in_write_tx_notify_after_commit",
             "fact_writePayload_skips_stored_payload", "fact_write_back_skips_removed_event", "fact_payload_handler_sequence", "fact_registrations"]
 
 
@@ -264,6 +265,7 @@ def run(ctx):
     #      of its three steps to the handler; replays the second-payload witness, also across a restart)
     if not ctx.replay:
         handler_oracle(ctx)
+        start_oracle(ctx)
 
     # ---- real sleeping of the retry loop: never shorter than retryDelay * 2^(1+k) (capped), i.e. growing
     n_timing = 0
@@ -367,6 +369,45 @@ def handler_oracle(ctx):
                       f"real handleTransactionPayload: vcr_vcs called again after completion at {again} (calls {rows[again[0]]['calls']})",
                       "handler-second-payload.jsonl", open(wit).read() if os.path.exists(wit) else "see harness/inpkg/network/transport/v2/zz_verif_c14_test.go")
     ctx.cov["handler_level_steps"] = len(rows)
+
+
+def start_oracle(ctx):
+    """the REAL Network.Start on a real state: after a (re)start every unfinished job of every persistent subscriber
+    has been attempted (ties the model's restart = Run for every notifier to the resume loop of Network.Start)"""
+    pkg, files, name = HARNESSES[2]
+    sb = ctx.go_test_binary(pkg, files, name)
+    if sb is None:
+        ctx.oblige("start-harness-builds", False, ctx.harness_error[-1200:])
+        return
+    d = os.path.join(ctx.scratch, "outs")
+    rc, log, out = ctx.run_harness(sb, "TestVerifC14Start", {"VERIF_ROUNDS": 40 if ctx.thorough else 8}, outdir=d, timeout=600)
+    if rc != 0:
+        ctx.oblige("start-harness-runs", False, "\n".join(l for l in log.split("\n") if "level=audit" not in l)[-1200:])
+        return
+    rows, bad, n_jobs, kinds = 0, [], 0, Counter()
+    for l in ctx.read_lines(os.path.join(out, "start.out")):
+        m = re.match(r"round=(\d+) start=(.*?) unfinished=\[(.*?)\] attempted=\[(.*?)\] left=\[(.*?)\] missed=\[(.*?)\]$", l)
+        if not m:
+            continue
+        rows += 1
+        unfinished = dict(x.rsplit(":", 1) for x in m.group(3).split(",") if x)
+        attempted = dict(x.rsplit(":", 1) for x in m.group(4).split(",") if x)
+        n_jobs += len(unfinished)
+        for k, r in unfinished.items():
+            kinds["never-attempted" if int(r) == 0 else ("below-threshold" if int(r) < 10 else "at/over-threshold")] += 1
+        missed = sorted(k for k in unfinished if k not in attempted)
+        if m.group(2) != "nil" or missed:
+            bad.append((m.group(1), m.group(2), missed, l))
+    ctx.oblige("start-harness-runs", rows > 0 and n_jobs > 0, f"{rows} rounds, {n_jobs} unfinished jobs")
+    ctx.oblige("oracle:start:every-unfinished-job-attempted-by-Network.Start", not bad,
+               "; ".join(f"round {r}: start={e} not attempted {ms}" for r, e, ms, _ in bad[:3]))
+    if bad:
+        r, e, ms, line = bad[0]
+        ctx.violation("C14:restart-does-not-resume-pending-jobs",
+                      f"real Network.Start (round {r}, start={e}): unfinished jobs {ms} of persistent subscribers were not attempted after the restart",
+                      "restart-does-not-resume-pending-jobs.txt",
+                      "scenario of harness/inpkg/network/zz_verif_c14_test.go (VERIF_SEED=%s), failing round:\n%s\n" % (ctx.seed, line))
+    ctx.cov["start_leg"] = {"rounds": rows, "unfinished_jobs": n_jobs, "job_states": dict(kinds)}
 
 
 def shrink(ctx, binary, h, upto, sig, threshold):
